@@ -25,6 +25,8 @@ pub enum Val {
     Str(String),
     /// ASCII-coded string: arbitrary bytes (a terminating NUL is added by the encoder)
     Ascii(#[serde(with = "hexbytes")] Vec<u8>),
+    /// UTF-8-coded string whose bytes are not necessarily valid UTF-8 (a sender mislabelling its encoding)
+    Utf8Bytes(#[serde(with = "hexbytes")] Vec<u8>),
     Raw(#[serde(with = "hexbytes")] Vec<u8>),
 }
 
@@ -62,6 +64,7 @@ impl Val {
             Val::F64(_) => TI_FLOA | 4,
             Val::Str(_) => TI_STRG | SCOD_UTF8,
             Val::Ascii(_) => TI_STRG,
+            Val::Utf8Bytes(_) => TI_STRG | SCOD_UTF8,
             Val::Raw(_) => TI_RAWD,
         }
     }
@@ -89,7 +92,7 @@ impl Val {
                 b.push(0);
                 b
             }
-            Val::Ascii(a) => {
+            Val::Ascii(a) | Val::Utf8Bytes(a) => {
                 let mut b = a.clone();
                 b.push(0);
                 b
@@ -98,7 +101,7 @@ impl Val {
         }
     }
     fn has_len_prefix(&self) -> bool {
-        matches!(self, Val::Str(_) | Val::Ascii(_) | Val::Raw(_))
+        matches!(self, Val::Str(_) | Val::Ascii(_) | Val::Utf8Bytes(_) | Val::Raw(_))
     }
     /// canonical text rendering (independent of adlt's)
     fn text(&self) -> String {
@@ -119,6 +122,7 @@ impl Val {
             Val::F64(v) => format!("{}", f64::from_bits(*v)),
             Val::Str(s) => ws(s.clone()),
             Val::Ascii(a) => ws(a.iter().map(|b| cp1252(*b)).collect()),
+            Val::Utf8Bytes(a) => ws(String::from_utf8_lossy(a).to_string()),
             Val::Raw(r) => r.iter().map(|b| format!("{:02x}", b)).collect::<Vec<_>>().join(" "),
         }
     }
@@ -141,7 +145,11 @@ fn gen_val(rng: &mut Rng) -> Val {
     fn ext<T: Copy>(rng: &mut Rng, xs: &[T], r: T) -> T {
         if rng.chance(1, 2) { *rng.pick(xs) } else { r }
     }
-    match rng.below(14) {
+    match rng.below(15) {
+        14 => {
+            let l = match rng.below(5) { 0 => 1, 4 => rng.urange(100, 400), _ => rng.urange(2, 30) };
+            Val::Utf8Bytes((0..l).map(|_| match rng.below(6) { 0 => *rng.pick(&[0xffu8, 0xc3, 0xe2, 0x80, 0xf0, 0xc0]), 1 => *rng.pick(&[b'\r', b'\n', b'\t']), 2 => 0xa4, _ => 0x20 + rng.u8() % 0x5f }).collect())
+        }
         0 => Val::Bool(rng.bool()),
         1 => { let r = rng.u8() as i8; Val::I8(ext(rng, &[0, -1, i8::MIN, i8::MAX], r)) }
         2 => { let r = rng.u32() as i16; Val::I16(ext(rng, &[0, -1, i16::MIN, i16::MAX], r)) }
@@ -199,6 +207,7 @@ fn encode(c: &Case) -> Result<Vec<u8>, String> {
                     add_to_serializer(&mut s, &DltVerbArgTypeWrapper::DltScodAscii(serde_bytes::Bytes::new(&b)))
                 }
                 Val::Raw(x) => add_to_serializer(&mut s, &serde_bytes::Bytes::new(x)),
+                Val::Utf8Bytes(_) => return Err("the serde encoder takes &str only".into()),
             };
             r.map_err(|e| format!("{:?}", e))?;
         }
@@ -299,8 +308,8 @@ impl Check for C18 {
             return Case { vals: vec![v], big_endian: encoder == 1 && rng.bool(), encoder, only_fault: None };
         }
         let n = rng.weighted(&[4, 20, 20, 15, 15, 10, 6, 4, 2, 1, 1, 1, 1]);
-        let vals = (0..n).map(|_| gen_val(rng)).collect();
-        let encoder = rng.below(2) as u8;
+        let vals: Vec<Val> = (0..n).map(|_| gen_val(rng)).collect();
+        let encoder = if vals.iter().any(|v| matches!(v, Val::Utf8Bytes(_))) { 1 } else { rng.below(2) as u8 };
         Case { vals, big_endian: encoder == 1 && rng.bool(), encoder, only_fault: None }
     }
     fn run(c: &Case, ctx: &mut Ctx) -> Result<(), Violation> {
@@ -490,6 +499,7 @@ impl Check for C18 {
             let smaller = match v {
                 Val::Str(s) if s.chars().count() > 1 => Some(Val::Str(s.chars().take(s.chars().count() / 2).collect())),
                 Val::Ascii(a) if a.len() > 1 => Some(Val::Ascii(a[..a.len() / 2].to_vec())),
+                Val::Utf8Bytes(a) if a.len() > 1 => Some(Val::Utf8Bytes(a[..a.len() / 2].to_vec())),
                 Val::Raw(a) if a.len() > 1 => Some(Val::Raw(a[..a.len() / 2].to_vec())),
                 _ => None,
             };
@@ -509,7 +519,7 @@ impl Check for C18 {
         }
     }
     fn rule() -> &'static str {
-        "one run = one typed value sequence (0-12 values over bool, i/u 8-64, f32/f64 incl. NaN/inf/-0/subnormal, UTF-8 and ASCII-coded strings incl. empty/long/CR LF TAB/embedded and trailing NUL/non-UTF-8, raw bytes) encoded by one of the library's own encoders (serde serializer = host order; payload_from_args = both byte orders), framed, written and re-read through the real writer/parser, decoded and rendered; then EVERY truncation point of the payload (all up to 4 KiB, every 97th beyond), every type-info word set to 11 values, every length prefix set to 5 values and noar set to 4 values is decoded again; each decoded variant is one evaluation; distinct = hash of (encoder, byte order, types, first value bytes)"
+        "one run = one typed value sequence (0-12 values over bool, i/u 8-64, f32/f64 incl. NaN/inf/-0/subnormal, UTF-8 and ASCII-coded strings incl. empty/long/CR LF TAB/embedded and trailing NUL/non-UTF-8, UTF-8-coded strings with invalid sequences (expected text = lossy decoding, then the same canonical form), raw bytes) encoded by one of the library's own encoders (serde serializer = host order; payload_from_args = both byte orders), framed, written and re-read through the real writer/parser, decoded and rendered; then EVERY truncation point of the payload (all up to 4 KiB, every 97th beyond), every type-info word set to 11 values, every length prefix set to 5 values and noar set to 4 values is decoded again; each decoded variant is one evaluation; distinct = hash of (encoder, byte order, types, first value bytes)"
     }
     fn assumptions() -> Vec<&'static str> {
         vec![
